@@ -4,9 +4,11 @@ package mimetype
 
 import (
 	"bytes"
+	"errors"
 	"fmt"
 	"os"
 	"path/filepath"
+	"strings"
 	"sync"
 	"syscall"
 	"testing"
@@ -320,17 +322,49 @@ func vfExtendRoot(det func([]byte, uint32) bool, mime, ext string, aliases ...st
 	Extend(det, mime, ext, aliases...)
 }
 
+// vfScribbleErr: Extend wrote into memory that belongs to its caller.
+type vfScribbleErr struct{ msg string }
+
+func (e *vfScribbleErr) Error() string { return e.msg }
+
+// apply performs the Extend call. The aliases are handed over the way a caller with one flat
+// table of names does it: as a window of a longer array (spare capacity behind it, a
+// neighbour's names in front of it); the array must be unchanged afterwards.
 func (e vfExt) apply() error {
+	table := make([]string, 0, len(e.Aliases)+5)
+	table = append(table, "application/x-verif-neighbour-before", "application/x-verif-neighbour-before-2")
+	table = append(table, e.Aliases...)
+	table = append(table, "application/x-verif-neighbour-after", "application/x-verif-neighbour-after-2", "application/x-verif-neighbour-after-3")
+	want := append([]string(nil), table...)
+	window := table[2 : 2+len(e.Aliases)]
+	if len(e.Aliases) == 0 {
+		window = table[2:2]
+	}
 	if e.Parent == "" {
-		vfExtendRoot(e.Pred.fn(), e.Mime, e.Ext, e.Aliases...)
-		return nil
+		vfExtendRoot(e.Pred.fn(), e.Mime, e.Ext, window...)
+	} else {
+		p := Lookup(e.Parent)
+		if p == nil {
+			return fmt.Errorf("Lookup(%q) is nil", e.Parent)
+		}
+		p.Extend(e.Pred.fn(), e.Mime, e.Ext, window...)
 	}
-	p := Lookup(e.Parent)
-	if p == nil {
-		return fmt.Errorf("Lookup(%q) is nil", e.Parent)
+	for i := range want {
+		if table[i] != want[i] {
+			return &vfScribbleErr{fmt.Sprintf("Extend(%q, aliases %q) changed its caller's alias array: element %d (outside the %d aliases passed) is now %q, was %q", e.Mime, e.Aliases, i-2, len(e.Aliases), table[i], want[i])}
+		}
 	}
-	p.Extend(e.Pred.fn(), e.Mime, e.Ext, e.Aliases...)
 	return nil
+}
+
+// vfApplyFailed maps an apply error to a result: a missing parent excludes the case, a
+// scribbled caller array is a violation.
+func vfApplyFailed(err error) vfResult {
+	var sc *vfScribbleErr
+	if errors.As(err, &sc) {
+		return vfResult{Err: err}
+	}
+	return vfResult{Skip: "extend-parent-missing"}
 }
 
 var vfExtParents = []string{"", "", "", "application/zip", "text/plain", "application/json", "text/xml", "application/x-ole-storage", "image/png", "video/mp4",
@@ -351,6 +385,19 @@ func vfGenExt(t *rapid.T, idx int, earlier []vfExt) vfExt {
 	}
 	for i, n := 0, rapid.IntRange(0, 2).Draw(t, "nalias"); i < n; i++ {
 		e.Aliases = append(e.Aliases, fmt.Sprintf("application/x-verif-alias-%d-%d", idx, i))
+	}
+	// an alias may be spelled like the main name (or an alias) of a built-in node or of an
+	// earlier extension: Lookup then finds whichever comes first in the depth-first walk
+	if rapid.IntRange(0, 5).Draw(t, "aliascollides") == 0 {
+		pool := []string{"application/zip", "text/plain", "application/json", "image/png", "application/x-zip", "application/x-tar", "text/xml", "application/x-gzip"}
+		for _, x := range earlier {
+			// aliases are registered in normal form (lower case, no parameters): Is compares them
+			// verbatim with the normalised argument
+			if x.Mime == strings.ToLower(x.Mime) && !strings.Contains(x.Mime, ";") {
+				pool = append(pool, x.Mime)
+			}
+		}
+		e.Aliases = append(e.Aliases, rapid.SampledFrom(pool).Draw(t, "collidingalias"))
 	}
 	// the same name may be registered again (under the same or another parent), or collide with
 	// a built-in format: every Extend call still adds a new node in front of the existing siblings
